@@ -52,6 +52,7 @@ type realRun struct {
 }
 
 func (d *D) runReal(sc *core.Scenario, inject string) *realRun {
+	core.HeartbeatNow()
 	d.runN++
 	dir := filepath.Join(d.workdir(), fmt.Sprintf("s%d", d.runN%64))
 	os.RemoveAll(dir)       //nolint:errcheck
